@@ -81,6 +81,16 @@ func (o *UntypedRequestBinder) Bind(request *http.Request, routeParams RoutePara
 			continue
 		}
 
+		if param.In == "body" && param.Default == nil && !runtime.HasBody(request) {
+			// no body and no default: a required body is missing, an optional one is left unbound and is not validated
+			if param.Required {
+				result = append(result, errors.Required(binder.Name, param.In, nil))
+			} else if isMap {
+				val.SetMapIndex(reflect.ValueOf(param.Name), target)
+			}
+			continue
+		}
+
 		if err := binder.Bind(request, routeParams, consumer, target); err != nil {
 			result = append(result, err)
 			continue
